@@ -151,6 +151,109 @@ pub fn check_batch(out: &mut Out, prop: &str, label: &str, members: &[&Tmpl], n_
     out.req(format!("batch c=256 action={} nT={} nP={} members={}", action_name(action), n_t, n_p, if descs.is_empty() { "-".to_string() } else { descs.join("/") }), masks);
 }
 
+/// the statement of a template re-issued over other parameters (same commitments, promises and seed): the proof
+/// stays what it was, the statement now claims bit length `n2` and capacity `cap2`
+pub fn reissue(base: &Tmpl, n2: usize, cap2: usize) -> Option<Tmpl> {
+    if base.ped != 0 {
+        return None;
+    }
+    let st = RangeStatement::init(fmrun::params(n2, cap2, base.inst.t), base.stmt.commitments.clone(), base.stmt.minimum_value_promises.clone(), base.stmt.seed_nonce).ok()?;
+    let mut t = base.clone();
+    t.stmt = st;
+    t.fit = base.stmt.minimum_value_promises.iter().all(|p| p.map(|v| n2 >= 64 || (v >> n2) == 0).unwrap_or(true));
+    t.valid = n2 == base.inst.n && base.valid;
+    t.inst.n = n2;
+    t.inst.cap = cap2;
+    Some(t)
+}
+
+/// randomly composed batches: a base configuration, members drawn from a pool, and with some probability one or two
+/// members that do not belong (other bit length — also by re-issuing a statement over other parameters, in both
+/// directions —, other degree, other Pedersen set, promise out of range, invalid proof, proof of another member)
+pub fn random_batches(opts: &Opts, out: &mut Out, rng: &mut rand_chacha::ChaCha12Rng) -> usize {
+    let ns = [2usize, 4, 8];
+    let ts = [1usize, 2];
+    let mut pool: Vec<Tmpl> = vec![];
+    for &n in &ns {
+        for &t in &ts {
+            for (m, cap, seeded, ped) in [(1usize, 1usize, true, 0usize), (1, 1, false, 0), (1, 2, false, 0), (2, 2, false, 0), (1, 1, false, 1), (4, 4, false, 0)] {
+                if n * m <= 16 {
+                    pool.push(make_valid(n, m, cap, t, seeded, ped, rng));
+                }
+            }
+        }
+    }
+    let nb = if opts.thorough { 1500 } else { 160 };
+    let pick = |rng: &mut rand_chacha::ChaCha12Rng, n: usize| (rng.next_u32() as usize) % n;
+    let mut made: Vec<Tmpl> = vec![];
+    let mut plans: Vec<(Vec<usize>, VerifyAction, String)> = vec![];
+    for _ in 0..nb {
+        let n = ns[pick(rng, ns.len())];
+        let t = ts[pick(rng, ts.len())];
+        let only_cap1 = pick(rng, 2) == 0;
+        let cands: Vec<usize> = (0..pool.len()).filter(|i| pool[*i].inst.n == n && pool[*i].inst.t == t && pool[*i].ped == 0 && (!only_cap1 || pool[*i].inst.cap == 1)).collect();
+        let k = 1 + pick(rng, 5);
+        // members are indices into `pool` (< pool.len()) or into `made` (offset by pool.len())
+        let mut ms: Vec<usize> = (0..k).map(|_| cands[pick(rng, cands.len())]).collect();
+        let mut label = format!("random n={} t={} k={} cap1={}", n, t, k, only_cap1);
+        let nodd = match pick(rng, 10) { 0..=3 => 0, 4..=8 => 1, _ => 2 };
+        for _ in 0..nodd {
+            let pos = pick(rng, k);
+            let base = pool[ms[pos] % pool.len()].clone();
+            let kind = pick(rng, 8);
+            let odd: Option<Tmpl> = match kind {
+                0 => reissue(&base, [1usize, 2, 4, 8, 16, 32, 64][pick(rng, 7)], [1usize, 2][pick(rng, 2)]),
+                1 => reissue(&base, n * 2, base.inst.cap),
+                2 => {
+                    let o: Vec<usize> = (0..pool.len()).filter(|i| pool[*i].inst.n != n && pool[*i].inst.t == t && pool[*i].ped == 0).collect();
+                    Some(pool[o[pick(rng, o.len())]].clone())
+                },
+                3 => {
+                    let o: Vec<usize> = (0..pool.len()).filter(|i| pool[*i].inst.n == n && pool[*i].inst.t != t && pool[*i].ped == 0).collect();
+                    Some(pool[o[pick(rng, o.len())]].clone())
+                },
+                4 => {
+                    let o: Vec<usize> = (0..pool.len()).filter(|i| pool[*i].inst.n == n && pool[*i].inst.t == t && pool[*i].ped == 1).collect();
+                    Some(pool[o[pick(rng, o.len())]].clone())
+                },
+                5 => {
+                    let mut b = base.clone();
+                    let j = pick(rng, b.inst.m);
+                    b.stmt.minimum_value_promises[j] = Some(if pick(rng, 2) == 0 { 1u64 << n } else { u64::MAX });
+                    b.fit = false;
+                    b.valid = false;
+                    Some(b)
+                },
+                6 => Some(make_invalid(&base, pick(rng, 4))),
+                _ => {
+                    // the proof of another member with the same shape
+                    let o: Vec<usize> = (0..pool.len()).filter(|i| *i != ms[pos] % pool.len() && pool[*i].inst.n == n && pool[*i].inst.t == t && pool[*i].inst.m == base.inst.m && pool[*i].ped == 0).collect();
+                    if o.is_empty() {
+                        None
+                    } else {
+                        let mut b = base.clone();
+                        b.proof = pool[o[pick(rng, o.len())]].proof.clone();
+                        b.valid = false;
+                        Some(b)
+                    }
+                },
+            };
+            if let Some(o) = odd {
+                made.push(o);
+                ms[pos] = pool.len() + made.len() - 1;
+                label.push_str(&format!(" odd{}@{}", kind, pos));
+            }
+        }
+        let action = fmrun::ACTIONS[pick(rng, 3)];
+        plans.push((ms, action, label));
+    }
+    for (ms, action, label) in &plans {
+        let members: Vec<&Tmpl> = ms.iter().map(|i| if *i < pool.len() { &pool[*i] } else { &made[*i - pool.len()] }).collect();
+        check_batch(out, "C03", label, &members, members.len(), members.len(), *action);
+    }
+    plans.len()
+}
+
 pub fn c03(opts: &Opts, out: &mut Out) {
     let mut rng = chacha(opts.seed, 3);
     let t = 1 + (opts.seed as usize % 3);
@@ -283,6 +386,8 @@ pub fn c03(opts: &Opts, out: &mut Out) {
             out.oracle("C03:cancelling-pair-rejected", !okc, "cancelling-pair k=2", "a batch of two individually invalid members with equal-and-opposite defects (computed from factors observed on earlier runs) was accepted");
         }
     }
+    let nrand = random_batches(opts, out, &mut rng);
+    out.stat("random_batches", nrand);
     out.case(format!("templates: {}", valid.iter().map(|t| t.desc()).collect::<Vec<_>>().join(" ")));
     out.case(format!("sizes: {:?}; index classes 0,1,k/2,k-1,254..257,511,512; refusals: empty, length mismatch, other bits/degree/pedersen, promise out of range", sizes));
     out.stat("batches", nb);
